@@ -57,6 +57,22 @@ def contracts():
                                    "self.csvpaths.file_manager.cacher.g_hdr_calls == old(self.csvpaths.file_manager.cacher.g_hdr_calls) + 1"},
         class_fields={**CF, "LineMonitor": {**CF["LineMonitor"], "g_of": "str"}}, macros=MACROS, returns="val", native={"skip": True},
         property_clauses={"line_counts_of_the_file_being_scanned": "C19", "headers_of_the_file_being_scanned": "C19"}))
+    # the cacher hands out private copies: what one caller does to its copy cannot reach the next caller
+    cached = {"filename": "const:f", "self.pathed_lines_and_headers": "rec[f:tuple[obj:LineMonitor,list[str]]]"}
+    entry = "self.pathed_lines_and_headers['f']"
+    cs.append(Contract(
+        target=f"{FC}::FileCacher.get_original_headers", variant="already_cached", types=cached,
+        ensures={"equal_to_the_cached_headers": f"result == {entry}[1]", "a_different_list": f"result is not {entry}[1]",
+                 "cache_untouched": f"{entry}[1] == old({entry}[1])"},
+        class_fields=CF, macros=MACROS, returns="list[str]", native={"skip": True},
+        property_clauses={"equal_to_the_cached_headers": "C19", "a_different_list": "C19", "cache_untouched": "C19"},
+        doc={"a_different_list": "C19: 'regardless of what was parsed or run earlier in the same process' -- append()/reset_headers() on one CsvPath's headers must not change the next CsvPath's"}))
+    same8c = " and ".join(f"same(result.{f}, {entry}[0].{f})" for f in LM_FIELDS)
+    cs.append(Contract(
+        target=f"{FC}::FileCacher.get_new_line_monitor", variant="already_cached", types=cached,
+        ensures={"equal_on_all_eight_counters": same8c, "a_different_object": f"result is not {entry}[0]"},
+        class_fields=CF, macros=MACROS, returns="obj:LineMonitor", native={"skip": True},
+        property_clauses={"equal_on_all_eight_counters": "C19", "a_different_object": "C19"}))
     return cs
 
 
